@@ -107,6 +107,9 @@ var kRegionsAt = register(&Kind{Name: "regions_at",
 			const readers = 8
 			msgs := make([]string, readers)
 			var wg sync.WaitGroup
+			// a fresh index: the concurrent lookups are the first ones it ever serves
+			// (lazy work done inside At on first use would race here)
+			idx = regions.NewIndex(slices.Clone(starts), slices.Clone(ends))
 			for g := 0; g < readers; g++ {
 				wg.Add(1)
 				go func(g int) {
@@ -324,6 +327,26 @@ func init() {
 				sz = ">8"
 			}
 			c.runRegions(starts, ends, qs, "random/"+style, "random/size"+sz)
+		}
+
+		// deep stacks: many intervals covering one position (65, 100, 300, 1000 of them),
+		// nested, in several index orders; queried at the common position and around it
+		for _, depth := range []int{64, 65, 66, 100, 300, 1000} {
+			for variant := 0; variant < 3; variant++ {
+				starts, ends := make([]int, depth), make([]int, depth)
+				for i := 0; i < depth; i++ {
+					j := i
+					switch variant {
+					case 1:
+						j = depth - 1 - i
+					case 2:
+						j = (i*37 + 11) % depth
+					}
+					starts[i], ends[i] = j, 3*depth-j
+				}
+				qs := []int{depth + depth/2, depth - 1, depth, 0, 1, depth / 2, 3*depth - 1, 3 * depth, 2*depth + 7, -1}
+				c.runRegions(starts, ends, qs, "deep-stack", fmt.Sprintf("deep-stack/%d", depth))
+			}
 		}
 
 		// lengths that do not match
